@@ -23,7 +23,7 @@ canonical spelling, so a rule sees the same tree whichever one the author chose:
   D14 [a, b][k]                          -> the k-th element (literal sequence, constant k)
   D16 x.reshape((a, b)) -> x.reshape(a, b) (view / expand / repeat / permute / tile alike); D17 X[a:b][k] -> X[a + k]
   D18 aliases of torch sub-modules (`nn`, `F`) -> `torch.nn`, `torch.nn.functional`; D19 `x.add_(y)` as a statement -> `x += y` (sub_/mul_/div_ alike)
-  D14b (a, b, c)[1:] -> (b, c); D20 f(*(a, b)) -> f(a, b); D21 [v for v in xs] -> list(xs); D24 tuple([a, b]) -> (a, b); D22 y = x.mul_(a).add_(b) -> x *= a; x += b; y = x
+  D14b (a, b, c)[1:] -> (b, c); D20 f(*(a, b)) -> f(a, b); D21 [v for v in xs] -> list(xs); D24 tuple([a, b]) -> (a, b); D25 (a, b) + (c, d) -> (a, b, c, d); D22 y = x.mul_(a).add_(b) -> x *= a; x += b; y = x
   D15 [*xs]                              -> list(xs)
   D12 X.m(a, q=b) -> X.m(a, b) when q is the next positional parameter of every definition of method m in the package
 
@@ -336,6 +336,10 @@ class Canon(ast.NodeTransformer):
         self.generic_visit(node)
         if isinstance(node.op, ast.MatMult):
             return self._hit(ast.Call(func=_torch_attr("matmul", node), args=[node.left, node.right], keywords=[]), node)
+        # D25 (a, b) + (c, d) -> (a, b, c, d) for displays of the same kind without starred entries
+        if isinstance(node.op, ast.Add) and type(node.left) is type(node.right) and isinstance(node.left, (ast.Tuple, ast.List)) \
+                and not any(isinstance(x, ast.Starred) for x in node.left.elts + node.right.elts) and not _loop_built(node.left) and not _loop_built(node.right):
+            return self._hit(type(node.left)(elts=list(node.left.elts) + list(node.right.elts), ctx=ast.Load()), node)
         return node
 
     # ------------------------------------------------------------ D4 None-indexing
